@@ -30,7 +30,7 @@ TECHNIQUE = "property-based testing (Hypothesis): generated products/workplaces,
 LEVEL_TEXT = "Generated-input search with placement invariants at every step; nested products only on the restricted profile N; not a proof."
 LEVEL_NOTE = "Trusts the step observer and a harness subclass of BaseComponent that records set_placed_workplace calls (no change to pDESy)."
 
-CFG_F = gen.Cfg(facilities=True, max_tasks=7, max_comps=5, max_wps=4, max_time=[40], p_auto=6,
+CFG_F = gen.Cfg(warm=4, facilities=True, max_tasks=7, max_comps=5, max_wps=4, max_time=[40], p_auto=6,
                 work_pool=[0.0, 0.5, 1.0, 1.0, 2.0, 3.0], kinds=[0, 0, 0, 1, 2, 3])
 CFG_N = CFG_F.copy(nested="assembly", inputs=False)
 
@@ -241,7 +241,8 @@ def check(spec):
             return res
     res.key = S.spec_hash(spec)
     ncomp = len(spec["comps"])
-    h = S.build(spec, comp_hashes=list(range(ncomp)))
+    h = S.warm_build(spec, comp_hashes=list(range(ncomp)))
+    res.cls("warm_" + str((spec.get("warm") or {}).get("mode")), bool(spec.get("warm")))
     p = h.project
     per_step_assign = []
 
